@@ -785,6 +785,9 @@ class Ctx:
         self.cand = {}  # decision index -> concretisation candidate
         self.pos = 0
         self.pc = []  # z3 bools
+        self.dpos = []  # index into pc of each decision taken on the current path
+        self.assumed = []  # harness preconditions on the current path
+        self.records = []  # per completed path: (pcn, assumed, result)
         self.pcn = []  # bool nodes
         self.stats = Stats()
         self.vars = {}
@@ -851,6 +854,7 @@ def branch(p):
         c.decisions.append(taken)
     c.pos += 1
     c.stats.decisions += 1
+    c.dpos.append(len(c.pc))
     c.pc.append(zp if taken else z3.Not(zp))
     c.pcn.append(p if taken else b_not(p))
     return taken
@@ -870,6 +874,7 @@ def assume(p):
     zp = c.lower(p)
     c.pc.append(zp)
     c.pcn.append(p)
+    c.assumed.append(p)
     # feasibility of the assumption on this path
     r = c.query([])
     if r == "unsat":
@@ -928,7 +933,7 @@ def model_env(model=None):
     return env
 
 
-def explore(fn, mode="bv", max_paths=20000, timeout_ms=20000, wall_s=None, pre=None):
+def explore(fn, mode="bv", max_paths=20000, timeout_ms=20000, wall_s=None, pre=None, max_violations=None):
     """run fn() on every feasible path. fn's return value / exception is collected.
     Returns (ctx, results) where results is a list of (outcome_kind, value)."""
     global CTX
@@ -941,6 +946,8 @@ def explore(fn, mode="bv", max_paths=20000, timeout_ms=20000, wall_s=None, pre=N
             c.pos = 0
             c.pc = []
             c.pcn = []
+            c.dpos = []
+            c.assumed = []
             try:
                 res = ("ok", fn())
             except PathAbort:
@@ -954,15 +961,18 @@ def explore(fn, mode="bv", max_paths=20000, timeout_ms=20000, wall_s=None, pre=N
             if res is not None:
                 out.append(res)
                 c.stats.paths += 1
+                if len(c.records) < 5000:
+                    c.records.append((list(c.pcn), list(c.assumed), list(c.pc), res[1]))
             d = c.decisions[: c.pos]
             pcs = c.pc
             # backtrack: flip the deepest True decision whose negation is feasible
             saved_pc = list(pcs)
+            dpos = c.dpos
             while d:
                 last = d.pop()
                 if last:
-                    c.pc = saved_pc[: len(d)]
-                    r = c.query([z3.Not(saved_pc[len(d)])])
+                    c.pc = saved_pc[: dpos[len(d)]]
+                    r = c.query([z3.Not(saved_pc[dpos[len(d)]])])
                     if r == "unknown":
                         c.stats.unknown_feas += 1
                     if r != "unsat":
@@ -972,6 +982,9 @@ def explore(fn, mode="bv", max_paths=20000, timeout_ms=20000, wall_s=None, pre=N
                 return c, out
             c.decisions = d
             c.cand = {k: v for k, v in c.cand.items() if k < len(d)}
+            if max_violations is not None and len(c.violations) >= max_violations:
+                c.notes.append(f"exploration stopped after {len(c.violations)} violation candidates")
+                return c, out
             if c.stats.paths > max_paths:
                 c.inconclusive.append(f"path budget {max_paths} exceeded")
                 return c, out
@@ -1728,3 +1741,123 @@ def int_from_bytes(b, byteorder="big", *, signed=False):
 
 def bytes_env(env, name, n):
     return bytes(env[f"{name}[{i}]"] for i in range(n))
+
+
+class SList(list):
+    """list whose indexing / pop / insert with a symbolic index splits into one path per in-range position plus one
+    out-of-range path (instead of enumerating every integer value)"""
+
+    def _pos(self, k, allow_end=False):
+        if not isinstance(k, SI):
+            return k
+        n = len(self)
+        for p in range(-n, n + (1 if allow_end else 0)):
+            if k == p:
+                return p
+        if k < 0:
+            return -n - 1
+        return n + 1
+
+    def __getitem__(self, k):
+        if isinstance(k, slice):
+            return SList(list.__getitem__(self, slice(*(concretize(v) if v is not None else None for v in (k.start, k.stop, k.step)))))
+        return list.__getitem__(self, self._pos(k))
+
+    def __setitem__(self, k, v):
+        if isinstance(k, slice):
+            return list.__setitem__(self, k, v)
+        return list.__setitem__(self, self._pos(k), v)
+
+    def pop(self, k=-1):
+        return list.pop(self, self._pos(k))
+
+    def insert(self, k, v):
+        return list.insert(self, self._pos(k, allow_end=True), v)
+
+
+class Out:
+    """path result carrying an outcome class and the symbolic output value (for encoding self-validation)"""
+
+    def __init__(self, cls, value=None):
+        self.cls = cls
+        self.value = value
+
+    def __repr__(self):
+        return repr(self.cls)
+
+
+def conc_value(v, env, memo=None):
+    """concrete value of a (possibly nested) symbolic result under env"""
+    if memo is None:
+        memo = {}
+    if isinstance(v, SI):
+        return evaln(v.n, env, memo)
+    if isinstance(v, SB):
+        return bool(evaln(v.n, env, memo))
+    if isinstance(v, SBytes):
+        return bytes(conc_value(i, env, memo) for i in v.items)
+    if isinstance(v, SHex):
+        return conc_value(v.b, env, memo).hex()
+    if isinstance(v, (list, tuple)):
+        return type(v)(conc_value(i, env, memo) for i in v) if not isinstance(v, SList) else [conc_value(i, env, memo) for i in v]
+    if isinstance(v, dict):
+        return {k: conc_value(x, env, memo) for k, x in v.items()}
+    if isinstance(v, bytearray):
+        return bytes(v)
+    return v
+
+
+def validate_paths(c, envs, native, check_lowering=True):
+    """encoding self-validation.  For each concrete env (var name -> value): the env must satisfy the path condition of
+    exactly one explored path (or violate a harness assumption on every path), and that path's symbolic output, evaluated
+    under env, must equal native(env) computed by the real unshimmed code.  Also evaluates the *lowered* z3 path
+    condition under env (substitution + simplify) so a lowering bug shows up as a mismatch.
+    Returns (n_validated, errors)."""
+    errors = []
+    done = 0
+    for env in envs:
+        memo = {}
+        hits = []
+        for rec in c.records:
+            pcn, assumed, pcz, res = rec
+            ok = True
+            for p in pcn:
+                if not evaln(p, env, memo):
+                    ok = False
+                    break
+            if ok:
+                hits.append(rec)
+        if len(hits) > 1:
+            errors.append(f"env {env} satisfies {len(hits)} path conditions (paths must partition the input space)")
+            continue
+        if not hits:
+            # acceptable only if some assumption excludes env on every path
+            excl = all(any(not evaln(p, env, memo) for p in rec[1]) for rec in c.records) if c.records else False
+            if not excl:
+                errors.append(f"env {env} satisfies no explored path condition")
+            continue
+        pcn, assumed, pcz, res = hits[0]
+        if check_lowering:
+            subs = []
+            for name, node in c.vars.items():
+                if name not in env:
+                    continue
+                if node.isbool:
+                    subs.append((z3.Bool(name), z3.BoolVal(bool(env[name]))))
+                elif c.mode == "int":
+                    subs.append((z3.Int(name), z3.IntVal(env[name])))
+                else:
+                    w = node.U if node.lo >= 0 else node.W
+                    subs.append((z3.BitVec(name, w), z3.BitVecVal(env[name], w)))
+            for zc in pcz:
+                v = z3.simplify(z3.substitute(zc, *subs))
+                if z3.is_false(v):
+                    errors.append(f"lowered path condition is false under an env the DAG accepts: {zc.sexpr()[:200]}")
+                    break
+        if native is not None:
+            want = native(env)
+            got = conc_value(res.value if isinstance(res, Out) else res, env, memo)
+            if want != got:
+                errors.append(f"encoding disagrees with the real code on {env}: real {want!r}, encoding {got!r}")
+        done += 1
+    return done, errors
